@@ -486,7 +486,11 @@ Proof. repeat split. Qed.
    [pxstep c0 c1] is its transition relation, tied to the code by trace validation
    (check_step_pv).  Pre-votes change no persisted state and their messages carry no authority:
    every PreVote run is a run of the micro-step system, so all safety theorems hold with PreVote
-   (fixed membership; CheckQuorum is not modelled, only monitored). *)
+   (fixed membership).  Config.CheckQuorum is part of the same model as two choices of the
+   environment: the event PvStepDown (a leader that finds no active quorum on a tick becomes a
+   follower of its term) and the non-delivery of a vote request (leader lease); the model does
+   not say WHEN they happen, so the theorems below hold for every CheckQuorum run, while
+   CheckQuorum's liveness is not covered. *)
 Theorem C15_prevote_transparent : forall c0 c1 F, In (c0, c1) F -> forall x, pxreachable c0 c1 x ->
   exists s, mreachable F s /\ (forall y, nodes s y = fst (px_nodes x y)) /\ msgs s = base_of (px_msgs x).
 Proof.
@@ -531,3 +535,10 @@ Theorem C15_check_step_pv_sound : forall c0 c1 x id ev obs_out obs obs_pre x',
   check_step_pv c0 c1 x id ev obs_out obs obs_pre = PVOk x' -> pxstep c0 c1 x x'.
 Proof. exact check_step_pv_sound. Qed.
 Print Assumptions C15_check_step_pv_sound.
+
+(* non-vacuity of the CheckQuorum event: a (single-voter) leader steps down and keeps term and vote *)
+Example C15_ex_checkquorum_stepdown :
+  let l := fst (exec_pv [1] [] 1 PvCampaign (init_node, false)) in
+  let f := fst (exec_pv [1] [] 1 PvStepDown l) in
+  n_role (fst l) = Leader /\ n_role (fst f) = Follower /\ n_term (fst f) = n_term (fst l) /\ n_vote (fst f) = n_vote (fst l) /\ n_log (fst f) = n_log (fst l) /\ n_commit (fst f) = n_commit (fst l).
+Proof. vm_compute. repeat split. Qed.
